@@ -5421,3 +5421,41 @@ func c14r15(c *Ctx, r *Report) {
 	}
 	r.floor("loops over field indexes in Transform", n, 1)
 }
+
+// c17r17: $FZF_DEFAULT_OPTS and the options file are split into words by a shell-words parser that STOPS at
+// the first unquoted `; & | < >` and reports where it stopped in Parser.Position. Whoever calls Parse has to
+// look at that position; otherwise the rest of the string — valid options, invalid options, the remaining
+// lines of the file — is dropped without a word (D48: `FZF_DEFAULT_OPTS='--query=a|b --no-such-option'` was
+// accepted with exit 0).
+func c17r17(c *Ctx, r *Report) {
+	l := c.L
+	r.rule("C17-R17", "B (the stop position of the word parser is consulted at every call site)", "P1",
+		"every function of package fzf that calls (*shellwords.Parser).Parse also reads the parser's Position field after the call",
+		"$FZF_DEFAULT_OPTS / the options file is silently truncated at an unquoted shell metacharacter: options after it are neither applied nor reported")
+	n := 0
+	for _, fn := range l.AllFuncs() {
+		if fn.Blocks == nil || fn.Pkg != l.pkg("fzf") {
+			continue
+		}
+		eachInstr(fn, func(in ssa.Instruction) {
+			call, ok := in.(*ssa.Call)
+			if !ok || !strings.HasSuffix(calleeName(call.Common()), "go-shellwords.Parser).Parse") {
+				return
+			}
+			n++
+			read := false
+			eachInstr(fn, func(i2 ssa.Instruction) {
+				u, ok := i2.(*ssa.UnOp)
+				if !ok || u.Op != token.MUL {
+					return
+				}
+				if fld, _ := fieldOf(u.X); fld != nil && fld.Name() == "Position" && canReach(in, i2) {
+					read = true
+				}
+			})
+			r.check(read, fmt.Sprintf("%s:word parser call #%d checks where the parser stopped", relName(fn), n), call.Pos(), fn,
+				"Parser.Position is read after Parse", "the words are used without looking at Parser.Position: everything after an unquoted ; & | < > is dropped silently")
+		})
+	}
+	r.floor("calls of the shell-words parser", n, 1)
+}
